@@ -80,6 +80,11 @@ impl<'a> AnalyzeContext<'a, '_> {
     ) -> EvalResult<BaseType<'a>> {
         let resolved =
             self.name_resolve_attr_prefix(scope, attr.name.span, &mut attr.name.item, diagnostics)?;
+        self.array_attribute_dimension(
+            scope,
+            attr.expr.as_mut().map(|expr| expr.as_mut()),
+            diagnostics,
+        )?;
         let typ = match resolved {
             ResolvedName::Type(typ) => typ,
             ResolvedName::ObjectName(oname) => oname.type_mark(),
@@ -346,6 +351,7 @@ impl<'a> AnalyzeContext<'a, '_> {
                     if let Some((_, indexes)) = prefix_typ.array_type() {
                         if let Some(index_typ) =
                             as_fatal(self.array_index_expression_in_attribute(
+                                scope,
                                 indexes,
                                 expr.as_mut().map(|expr| expr.as_mut()),
                                 diagnostics,
